@@ -131,6 +131,15 @@ class Recorder(object):
         th, tw, ph, pw = mode.height, mode.width, mode.pixel_height, mode.pixel_width
         fh, fw = -(-ph // th), pw // tw
         text = self.s.s.get_chars(as_type=type(u''))
+        # the two views the interpreter reports of the visible page's characters (raw bytes / unicode) must agree; compared on
+        # printable ASCII, where the code page cannot matter (the display is compared with the unicode view by the trace spec)
+        raw = self.s.s.get_chars()
+        self.rawdiff = []
+        for i, (rr, ur) in enumerate(zip(raw, text)):
+            for j, (b, u) in enumerate(zip(rr, ur)):
+                bo = b[0] if b else 0
+                if (32 <= bo <= 126 and u != chr(bo)) or (len(u) == 1 and 32 <= ord(u) <= 126 and bo != ord(u)):
+                    self.rawdiff.append([i + 1, j + 1, bo, u])
         pix = disp.vpage.pixels[:, :]
         rows = self.cells_of([list(r) for r in text], pix._rows, fh, fw)
         if self.prev is None or len(self.prev) != len(rows) or len(self.prev[0]) != tw:
@@ -151,7 +160,7 @@ class Recorder(object):
             else:
                 sigs.append(r)
         disp = self.s.impl.display
-        e = {'stmt': stmt, 'kind': kind, 'ok': ok, 'code': code, 'sigs': sigs, 'emu': self.emu(), 'other_signals': nother,
+        e = {'stmt': stmt, 'kind': kind, 'ok': ok, 'code': code, 'sigs': sigs, 'emu': self.emu(), 'rawdiff': self.rawdiff[:8], 'other_signals': nother,
              'adapter': self.adapter, 'mode': disp.mode.name, 'text': bool(disp.mode.is_text_mode),
              'vpage': disp.vpagenum, 'apage': disp.apagenum, 'attr': disp.attr}
         self.events.append(e)
@@ -270,6 +279,27 @@ def random_history(rec, rng, adapter, nsteps):
                 rec.do('LOCATE %d,%d: PRINT "page%d";' % (rng.randint(1, 20), rng.randint(1, 10), a))
                 rec.do('PCOPY %d,%d' % (a, v))
                 rec.do('PRINT "hidden"')
+        if i == nsteps // 3:
+            # hidden-scroll probe: on a hidden active page, one PRINT item that crosses the right margin on the bottom row of the
+            # scroll area (the page scrolls in the middle of the write); the page is then shown by a flip, a copy or a redraw
+            # (round-2 seeded change C35b skipped the drawing of pending rows when a hidden page scrolls)
+            disp = rec.s.impl.display
+            np_ = disp.mode.num_pages
+            if np_ > 1:
+                v = disp.vpagenum
+                a = (v + 1 + rng.randrange(np_ - 1)) % np_
+                w = disp.mode.width
+                rec.do('SCREEN ,,%d,%d' % (a, v))
+                rec.do('LOCATE %d,%d' % (rec.s.impl.text_screen.scroll_area.bottom, rng.choice([1, 1, w - 3, w])))
+                rec.do('PRINT STRING$(%d,%d)%s' % (rng.choice([w + 20, w + 1, 2 * w + 5, 100]), rng.choice([65, 219, 97]), rng.choice(['', ';'])))
+                how = rng.random()
+                if how < 0.5:
+                    rec.do('SCREEN ,,%d,%d' % (a, a))
+                elif how < 0.8:
+                    rec.do('PCOPY %d,%d' % (a, v))
+                else:
+                    rec.do('SCREEN ,,%d,%d' % (a, a))
+                    rec.redraw()
     rec.crosscheck()
 
 
@@ -320,6 +350,7 @@ def run(ctx):
         base += len(ch)
     ctx.cov['traces_validated_against_impl'] += nhist
     stats = {'mode': 0, 'update': 0, 'clear': 0, 'scroll': 0}
+    reported_rawdiff = []
     for e in events:
         for sg in e['sigs']:
             stats[sg['t']] += 1
@@ -327,6 +358,14 @@ def run(ctx):
                   nontrivial=bool(e['sigs']))
         if e['kind'] == 'internal':
             ctx.reject('C35 internal error on %s' % e['stmt'], key={'clause': 'internal'}, data={'stmt': e['stmt']})
+        if e.get('rawdiff') and not reported_rawdiff:
+            # once per history is enough (the difference persists until the row is written again)
+            reported_rawdiff.append(1)
+            ctx.reject('C35 reported_characters_disagree (get_chars() bytes vs unicode: [row, col, byte, unicode]) %s at %r adapter=%s mode=%s vpage=%s apage=%s' % (
+                e['rawdiff'][:4], e['stmt'][:80], e['adapter'], e['mode'], e['vpage'], e['apage']),
+                key={'clause': 'reported_characters_disagree', 'text_mode': e['text']}, data={'stmt': e['stmt'], 'rawdiff': e['rawdiff']})
+        if e['kind'] == 'init':
+            del reported_rawdiff[:]
     ctx.cov['signals'] = stats
     ctx.cov['pixel_block_classes'] = len(rec.intern)
     ctx.cov['events_with_hidden_active_page'] = sum(1 for e in events if e['vpage'] != e['apage'])
